@@ -39,9 +39,10 @@ theorem convert_closed_form (g : IsingSampler) (h : g.WF) : intoQmc g = .ok (con
 /-- boundary of the domain: with `Γ < 0` the constructor of the transverse interaction rejects the
 matrix and `unwrap()` panics (the Ising sampler with `Γ < 0` panics on its first sweep too). -/
 theorem convert_panics_negative_gamma (g : IsingSampler)
-    (he : ∀ e ∈ g.model.edges, e.1.length = 2) (hg : g.model.transverse < 0)
+    (he : ∀ e ∈ g.model.edges, e.1.length = 2) (hnd : ∀ e ∈ g.model.edges, e.1.Nodup)
+    (hg : g.model.transverse < 0)
     (hn : 0 < g.model.nvars) : intoQmc g = .panic :=
-  intoQmc_neg_gamma g he hg hn
+  intoQmc_neg_gamma g he hnd hg hn
 
 /-! ### same Hamiltonian, bond by bond -/
 
@@ -205,9 +206,10 @@ theorem convert_trajectory_heatbath_partial (mv : Moves) (hmv : mv.Lawful) (hhea
 gate of the converted sampler (the Ising sampler flips the whole string with probability ½ there),
 so the trajectory theorems apply. -/
 theorem convert_cluster_gate_gamma_zero (g : IsingSampler) (he : ∀ e ∈ g.model.edges, e.1.length = 2)
+    (hnd : ∀ e ∈ g.model.edges, e.1.Nodup)
     (h0 : g.model.transverse = 0) (hh : g.model.longitudinal = 0) (hn : 0 < g.model.nvars)
     (q : GenericSampler) (hq : intoQmc g = .ok q) : q.shouldDoClusterUpdate = true := by
-  have hwf : g.WF := ⟨he, by rw [h0]⟩
+  have hwf : g.WF := ⟨he, hnd, by rw [h0]⟩
   rw [convert_cluster_gate g hwf q hq hn, hasField_zero _ hh]; rfl
 
 /-- What survives F4: for **every** field `h`, sequences of diagonal sweeps
@@ -252,7 +254,8 @@ def witnessSampler : IsingSampler :=
     state := [false, false], cutoff := 2, slots := [] }
 
 theorem witnessSampler_wf : witnessSampler.WF :=
-  ⟨by intro e he; simp [witnessSampler] at he; rw [he]; rfl, by norm_num [witnessSampler]⟩
+  ⟨by intro e he; simp [witnessSampler] at he; rw [he]; rfl,
+   by intro e he; simp [witnessSampler] at he; rw [he]; decide, by norm_num [witnessSampler]⟩
 
 theorem witnessSampler_hasField : witnessSampler.model.hasField = true := by
   rw [hasField_iff]; norm_num [witnessSampler, absR, eps]
@@ -296,6 +299,7 @@ def exampleSampler : IsingSampler :=
 
 example : exampleSampler.WF :=
   ⟨by intro e he; simp [exampleSampler] at he; rcases he with h | h <;> rw [h] <;> rfl,
+   by intro e he; simp [exampleSampler] at he; rcases he with h | h <;> rw [h] <;> decide,
    by norm_num [exampleSampler]⟩
 
 example : exampleSampler.model.hasField = false := hasField_zero _ rfl
